@@ -258,6 +258,10 @@ class Interp:
             return self.lib.BUILTINS[name]
         if name in BUILTIN_EXC:
             return ExcType(name)
+        if name in ("IOError", "EnvironmentError"):      # aliases of OSError
+            return ExcType("OSError")
+        if name in ("__name__", "__package__") and mod is not None:
+            return mod.name if name == "__name__" else mod.name.rsplit(".", 1)[0]
         raise Unsupported(f"unresolved name {name}")
 
     def module_attr(self, st, mod, name, missing=None):
@@ -1169,6 +1173,14 @@ class Interp:
         r = self.lib.special_setitem(self, st, obj, o, idx, v)
         if r is not NotImplemented:
             return
+        if isinstance(o, Obj) and isinstance(o.cls, ClassVal):
+            found = self.class_lookup(o.cls, "__setitem__")
+            if found:
+                self.call_function(st, found[0], [obj, idx, v], {})
+                return
+            if all(isinstance(b, ClassVal) for b in o.cls.bases):
+                # a plain class without __setitem__ (its bases are all repository classes or object)
+                raise PyRaise(ExcVal("TypeError", (f"'{o.cls.qualname}' object does not support item assignment",)))
         raise Unsupported(f"subscript store on {type(o).__name__}")
 
     # ------------------------------------------------------------------ loops
